@@ -14,6 +14,7 @@ type WorkloadAgent struct {
 	Cluster string
 	// Policy: "ready" (default), "never", "stale" (ready but observedGeneration lags)
 	Policy map[store.Key]string
+	Budget int // remaining perturbations
 }
 
 func (a *WorkloadAgent) Name() string { return "workload" }
@@ -75,8 +76,9 @@ func (a *WorkloadAgent) Ops(w *World, calm bool) []AgentOp {
 				_, _ = w.TP("workload", cl).Mutate(key, func(o store.Obj) { o["status"] = want })
 			}})
 		}
-		if !calm && w.Cfg.Faults["drift"] {
+		if !calm && w.Cfg.Faults["drift"] && a.Budget > 0 {
 			ops = append(ops, AgentOp{Label: "perturb " + key.String(), Weight: 1, Do: func(w *World) {
+				a.Budget--
 				mode := []string{"unready", "stale", "ready"}[w.Sch.Intn(3, "workload-mode")]
 				st := store.Normalize(workloadStatus(key.Kind, gen, mode))
 				w.Stats.Probe("workload-" + mode)
